@@ -15,6 +15,8 @@ def main():
     ap.add_argument("--replay")
     ap.add_argument("--freeze-baseline", action="store_true",
                     help="developer: record the obligations discharged by this run in baseline/obligations.json")
+    ap.add_argument("--freeze-add", action="store_true",
+                    help="developer: add the obligations discharged by this (ordinary) run to baseline/obligations.json, keeping the rest")
     a = ap.parse_args()
     seed = int(os.environ.get("VERIF_SEED", "0") or 0)
     os.environ["Y0VC_TIER"] = a.tier
@@ -39,6 +41,14 @@ def main():
         pipeline.BASELINE.parent.mkdir(exist_ok=True)
         pipeline.BASELINE.write_text(json.dumps(base, indent=1))
         print(f"baseline for {a.pid}: {len(base[a.pid])} obligations")
+    if a.freeze_add and rc == 0:
+        ev = json.load(open(pipeline.EVID / f"{a.pid}.json"))
+        base = pipeline.load_baseline()
+        new = {o["id"] for o in ev["coverage"]["obligation_table"] if o["status"] == "discharged"}
+        old = set(base.get(a.pid, []))
+        base[a.pid] = sorted(old | new)
+        pipeline.BASELINE.write_text(json.dumps(base, indent=1))
+        print(f"baseline for {a.pid}: {len(old)} -> {len(base[a.pid])} obligations")
     return rc
 
 
@@ -88,6 +98,14 @@ def replay(pid, path):
                   if {p: (k if isinstance(k, str) else "const") for p, k in v.items()} == r["variant"])
         rep = pipeline.replay_model(repo, con, vi, _fix(r["model"]), registry)
         print(json.dumps({"inputs": rep["inputs"], "outcome": rep["outcome"], "contract": rep["contract"]}, indent=1, default=str))
+        if str(payload.get("obligation", "")).endswith(("/frame", "/bounded.frame")) or "frame_probe" in payload or "frame_probe" in r:
+            m = _fix(r["model"])
+            world = concrete.World(m["k"], m.get("order"), m.get("interventions", ()))
+            why = concrete.frame_probe(con.qual, world, variants[vi], {p_: m[p_] for p_ in variants[vi] if p_ in m})
+            print(json.dumps({"frame_probe": why}))
+            if why:
+                print(f"VIOLATION property={pid} replay={path}")
+                return 1
         ev = rep["contract"]
         bad = (not ev["pre"]) is False and (any(v is False for v in ev["clauses"].values()) or ev["raise_allowed"] is False
                                             or any(v is False for v in ev["must_raise"].values()))
